@@ -161,6 +161,14 @@ func run(c *vh.Ctx) error {
 			la = 33 - p + c.R.Range(0, 3) // two period ends; B crosses one as well when longer than 15-p
 		}
 		line := fmt.Sprintf("H seed=%d prefix=%d a=%d b=%d", c.R.Intn(1000000), p, la, lb)
+		if i%2 == 1 {
+			// period layout: the fork starts before / exactly at / after the first block of the second staking period
+			// (blocks 16..31 on the test-case table) and runs past its end
+			p = []int{11, 15, 17, 14, 15, 20}[(i/2)%6]
+			lb = c.R.Range(1, 4)
+			la = 33 - p + c.R.Range(0, 2)
+			line = fmt.Sprintf("H seed=%d prefix=%d a=%d b=%d period=1", c.R.Intn(1000000), p, la, lb)
+		}
 		f, what, info, err := runHistory(line)
 		if err != nil {
 			return fmt.Errorf("scenario %q: %v", line, err)
